@@ -57,8 +57,9 @@ func (c *client) Close() error {
 	logger.Log.Debug("closing rpc client %s", c.targetIdentity.Name)
 
 	c.connected = false
+	// (the closed connection stays in place: the heart-beat and monitor loops use a service's client without any
+	// lock, a call that races with this Close() must get rpc.ErrShutdown from it, not a nil dereference)
 	err := c.client.Close()
-	c.client = nil
 
 	return err
 }
